@@ -42,7 +42,7 @@ def resolve_once(doc, frag):
 def resolve(doc, frag):
     first = resolve_once(doc, frag)
     second = resolve_once(doc, frag)       # the same fragment again, through a fresh resolver
-    if first[0] != second[0] or (first[0] == "ok" and first[1] is not second[1]):
+    if not same(first, second):
         raise HarnessEscape("second resolution of the same fragment differs from the first")
     return first
 
@@ -161,7 +161,8 @@ def raw(n, pct=False, nested=False):
         want = expected(doc, decode(g))
         return same(got, want), got[0]
 
-    return Spec([("doc", Dict[str, int]), ("f", str)], pre, body, tags=["ok", "unresolvable"] if n >= 1 else ["ok"])
+    # (keys have at most 2 code points, so a single-token pointer longer than 5 characters cannot address anything)
+    return Spec([("doc", Dict[str, int]), ("f", str)], pre, body, tags=(["ok", "unresolvable"] if 1 <= n <= 5 else (["ok"] if n == 0 else ["unresolvable"])))
 
 
 def roundtrip(L=2, pct=False):
@@ -284,7 +285,7 @@ def conditions(tier, seed, active):
 
     nmax = 4 if tier == "quick" else 6
     for n in range(0, nmax + 1):
-        c("raw/len%d" % n, "raw", dict(n=n), ["ok", "unresolvable"] if n >= 1 else ["ok"], timeout=900 if n >= 5 else 300)
+        c("raw/len%d" % n, "raw", dict(n=n), (["ok", "unresolvable"] if 1 <= n <= 5 else (["ok"] if n == 0 else ["unresolvable"])), timeout=1800 if n >= 5 else 300)
     for n in range(0, 4 if tier == "quick" else 5):
         c("raw-nested/len%d" % n, "raw", dict(n=n, nested=True), ["ok", "unresolvable"] if n else ["ok"], timeout=900)
     for n in range(1, 4 if tier == "quick" else 5):
